@@ -4,7 +4,19 @@ package explore
 
 import (
 	"fmt"
+	"runtime"
 	"runtime/debug"
+	"sync"
+	"time"
+)
+
+// BlockTimeout: how long the scheduler waits for the running thread to reach its next scheduling point before it
+// concludes that the thread is blocked on synchronisation of the code under test itself (a mutex held by a thread
+// that is waiting for the baton). Such a thread is taken out of the enabled set until it shows up again; the other
+// threads go on. DeadlockTimeout: all unfinished threads blocked for this long = deadlock.
+var (
+	BlockTimeout    = 400 * time.Millisecond
+	DeadlockTimeout = 20 * time.Second
 )
 
 // Point is one scheduling decision of an execution.
@@ -21,6 +33,12 @@ type Exec struct {
 	Choices []int
 	Threads []int // sequence of thread ids that ran (the schedule)
 	Panics  map[int]string
+	// Blocked: some thread blocked on the code's own synchronisation during this execution (from then on threads
+	// overlap in real time and the execution is no longer determined by Choices alone); Diverged: a replayed prefix
+	// could not be followed because of that; Deadlock: every unfinished thread stayed blocked for DeadlockTimeout.
+	Blocked  bool
+	Diverged bool
+	Deadlock bool
 }
 
 func (x *Exec) PreemptionsBefore(i int) int {
@@ -45,6 +63,7 @@ type Sched struct {
 	resume  []chan struct{}
 	events  chan event
 	current int
+	ids     sync.Map // goroutine id -> thread id
 	// AtPoint, if set, is called by the scheduler (no thread running) after every step with the id
 	// of the thread that just ran; returning a non-empty string aborts the execution with that error.
 	AtPoint func(justRan int) string
@@ -54,11 +73,31 @@ type Sched struct {
 // Current returns the id of the thread that is running now (valid inside a body).
 func (s *Sched) Current() int { return s.current }
 
-// Yield is a scheduling point: the calling thread hands the baton back to the scheduler.
+// Yield is a scheduling point: the calling thread hands the baton back to the scheduler. The caller is identified by
+// its goroutine (not by "the thread that holds the baton": after a thread was found blocked on the code's own
+// synchronisation, threads can overlap).
 func (s *Sched) Yield() {
-	id := s.current
+	v, ok := s.ids.Load(goid())
+	if !ok {
+		return // a goroutine the harness does not own (spawned by the library): not a scheduling point
+	}
+	id := v.(int)
 	s.events <- event{thread: id}
 	<-s.resume[id]
+}
+
+// goid: the current goroutine's id, parsed from the first line of its stack ("goroutine 123 [running]:").
+func goid() uint64 {
+	var buf [40]byte
+	n := runtime.Stack(buf[:], false)
+	var id uint64
+	for _, c := range buf[10:n] {
+		if c < '0' || c > '9' {
+			break
+		}
+		id = id*10 + uint64(c-'0')
+	}
+	return id
 }
 
 // Run executes the bodies under the given choice prefix (then choice 0 everywhere).
@@ -73,6 +112,7 @@ func (s *Sched) Run(bodies []func(), prefix []int) *Exec {
 	for i := range bodies {
 		s.resume[i] = make(chan struct{})
 		go func(id int) {
+			s.ids.Store(goid(), id)
 			<-s.resume[id]
 			defer func() {
 				ev := event{thread: id, done: true}
@@ -85,25 +125,55 @@ func (s *Sched) Run(bodies []func(), prefix []int) *Exec {
 		}(i)
 	}
 	running := -1
+	blocked := make([]bool, n)
+	handle := func(ev event) {
+		blocked[ev.thread] = false // it reached a scheduling point (or its end)
+		if ev.done {
+			done[ev.thread] = true
+			if ev.panic != "" {
+				x.Panics[ev.thread] = ev.panic
+			}
+		}
+	}
 	for {
 		var enabled []int
-		stillEnabled := running >= 0 && !done[running]
+		stillEnabled := running >= 0 && !done[running] && !blocked[running]
 		if stillEnabled {
 			enabled = append(enabled, running)
 		}
+		unfinished := 0
 		for i := 0; i < n; i++ {
-			if !done[i] && i != running {
+			if !done[i] {
+				unfinished++
+			}
+			if !done[i] && !blocked[i] && i != running {
 				enabled = append(enabled, i)
 			}
 		}
-		if len(enabled) == 0 {
+		if unfinished == 0 {
 			break
+		}
+		if len(enabled) == 0 {
+			// every unfinished thread is blocked outside the scheduler: wait for one of them to show up
+			select {
+			case ev := <-s.events:
+				handle(ev)
+				continue
+			case <-time.After(DeadlockTimeout):
+				x.Deadlock = true
+				return x // the blocked goroutines are abandoned
+			}
 		}
 		choice := 0
 		if len(x.Points) < len(prefix) {
 			choice = prefix[len(x.Points)]
 			if choice < 0 || choice >= len(enabled) {
-				panic(fmt.Sprintf("explore: divergence while replaying prefix %v at point %d: choice %d of %d enabled", prefix, len(x.Points), choice, len(enabled)))
+				if x.Blocked {
+					x.Diverged = true
+					choice = 0
+				} else {
+					panic(fmt.Sprintf("explore: divergence while replaying prefix %v at point %d: choice %d of %d enabled", prefix, len(x.Points), choice, len(enabled)))
+				}
 			}
 		}
 		x.Points = append(x.Points, Point{Enabled: enabled, Chosen: choice, RunningStillEnabled: stillEnabled, Running: running})
@@ -113,11 +183,19 @@ func (s *Sched) Run(bodies []func(), prefix []int) *Exec {
 		s.current = t
 		running = t
 		s.resume[t] <- struct{}{}
-		ev := <-s.events
-		if ev.done {
-			done[ev.thread] = true
-			if ev.panic != "" {
-				x.Panics[ev.thread] = ev.panic
+	wait:
+		for {
+			select {
+			case ev := <-s.events:
+				handle(ev)
+				if ev.thread == t {
+					break wait
+				}
+				// a thread that had been blocked reached its next point while t runs: keep waiting for t
+			case <-time.After(BlockTimeout):
+				blocked[t] = true
+				x.Blocked = true
+				break wait
 			}
 		}
 		if s.AtPoint != nil && s.Abort == "" {
@@ -146,6 +224,7 @@ type Explorer struct {
 	MaxPoints  int
 	Limit      int // 0 = unlimited; else stop after Limit executions (reported as capped)
 	Capped     bool
+	Diverged   int // executions abandoned because real blocking made a prefix unreplayable
 	stop       bool
 }
 
@@ -162,6 +241,10 @@ func (e *Explorer) Explore(prefix []int) {
 	e.Executions++
 	if len(x.Points) > e.MaxPoints {
 		e.MaxPoints = len(x.Points)
+	}
+	if x.Diverged {
+		e.Diverged++ // timing-dependent blocking made the prefix unreplayable: this branch is not explored further
+		return
 	}
 	if !e.Check(x, s) {
 		e.stop = true
